@@ -26,6 +26,7 @@ ASSUMPTIONS = ["definition objects are only reachable through the class (states,
 TRUSTED = ["/verif/sa resolver (receiver types) and call graph"]
 
 MUTABLE_CTORS = {"dict", "list", "set", "defaultdict", "deque", "OrderedDict", "local", "Counter", "WeakValueDictionary", "WeakKeyDictionary"}
+SYNC_CTORS = {"Lock", "RLock", "Condition", "Semaphore", "BoundedSemaphore", "Event", "Barrier", "Queue", "LifoQueue", "SimpleQueue"}
 MUTATING_METHODS = {"append", "add", "update", "extend", "insert", "pop", "remove", "clear", "setdefault", "popitem", "discard", "appendleft", "popleft", "sort", "reverse"}
 
 # objects that are written after import, with the reason they are acceptable
@@ -96,6 +97,46 @@ def rule_inventory(ctx: Ctx):
                     ws += [n for n in own_nodes(fn.node) if isinstance(n, ast.Name) and isinstance(n.ctx, ast.Store) and n.id == name]
                 for w in ws:
                     written.setdefault(key, []).append((fn, w))
+    # module-level mutables that escape by reference (`obj.attr = NAME`, `local = NAME`) and are mutated through the alias
+    for mod in ctx.p.modules.values():
+        for name, val in mod.assigns.items():
+            key = f"{mod.rel}::{name}"
+            if key not in inventory or not _is_mutable_value(val):
+                continue
+            for fn in ctx.p.all_functions():
+                if not (fn.module is mod or (name in fn.module.imports and fn.module.imports[name][0] == mod.name)):
+                    continue
+                for n in own_nodes(fn.node):
+                    tgt = None
+                    if isinstance(n, ast.Assign) and len(n.targets) == 1 and isinstance(n.value, ast.Name) and n.value.id == name:
+                        tgt = n.targets[0]
+                    elif isinstance(n, ast.AnnAssign) and isinstance(n.value, ast.Name) and n.value.id == name:
+                        tgt = n.target
+                    if tgt is None:
+                        continue
+                    if isinstance(tgt, ast.Name):
+                        for w in _writes_to(tgt.id, fn.node):
+                            written.setdefault(key, []).append((fn, w))
+                    elif isinstance(tgt, ast.Attribute):
+                        # the attribute now *is* the shared object: any mutation through that attribute name writes it
+                        for f2 in ctx.p.all_functions():
+                            for m in ast.walk(f2.node):
+                                if isinstance(m, ast.Call) and isinstance(m.func, ast.Attribute) and m.func.attr in MUTATING_METHODS and \
+                                        isinstance(m.func.value, ast.Attribute) and m.func.value.attr == tgt.attr:
+                                    written.setdefault(key, []).append((f2, m))
+                                if isinstance(m, ast.Subscript) and isinstance(m.ctx, (ast.Store, ast.Del)) and isinstance(m.value, ast.Attribute) \
+                                        and m.value.attr == tgt.attr:
+                                    written.setdefault(key, []).append((f2, m))
+    # memoising decorators: the memo is a process-wide mutable keyed by the arguments
+    for fn in ctx.p.all_functions():
+        if isinstance(fn.node, ast.Lambda):
+            continue
+        for d in fn.node.decorator_list:
+            dn = show(d.func) if isinstance(d, ast.Call) else show(d)
+            if dn.split(".")[-1] in ("lru_cache", "cache", "cached_property") and dn.split(".")[-1] != "cached_property":
+                key = f"{fn.module.rel}::{fn.qualname}@{dn.split('.')[-1]}"
+                inventory.append(key)
+                written.setdefault(key, []).append((fn, d))
     # closure-level objects (a mutable created in an outer function and captured by an inner one)
     for fn in ctx.p.all_functions():
         inner = [f for f in fn.module.all_functions if f.parent is fn]
@@ -135,6 +176,20 @@ def rule_inventory(ctx: Ctx):
                                    for s_ in ast.walk(m.node))
                     if not shadowed:
                         written.setdefault(key, []).extend(hits)
+    # class-level synchronisation / per-object sentinels: one object shared by every instance of the class
+    for c in ctx.p.classes.values():
+        for name, val in c.class_assigns.items():
+            if isinstance(val, ast.Call):
+                nm = val.func.id if isinstance(val.func, ast.Name) else (val.func.attr if isinstance(val.func, ast.Attribute) else None)
+                if nm in SYNC_CTORS:
+                    key = f"{c.module.rel}::{c.name}.{name}"
+                    inventory.append(key)
+                    shadowed = any(isinstance(s_, ast.Attribute) and s_.attr == name and isinstance(s_.ctx, ast.Store) for m in c.methods.get("__init__", [])
+                                   for s_ in ast.walk(m.node))
+                    users = [(fn, n) for fn in ctx.p.all_functions() for n in ast.walk(fn.node)
+                             if isinstance(n, ast.Attribute) and n.attr == name and isinstance(n.ctx, ast.Load)]
+                    if users and not shadowed:
+                        written.setdefault(key, []).extend(users[:3])
     rep.floor("C16.inventory", "shared mutable objects inventoried", len(inventory), 6)
     rep.extra["shared_mutable_inventory"] = sorted(inventory)
     for key in sorted(inventory):
